@@ -18,9 +18,9 @@ func c14Profiles(tier string) []Profile {
 			ls := storeLetters(true, true)(w)
 			// the second collection may also be created under the reverse comparator
 			ls = append(ls, Letter{"SetColl(y,rev)", func(w *harness.World) {
-				if mc := w.M.Cur.Colls["y"]; mc == nil || len(mc.Items) <= 1 {
-					w.SetCollection("y", "rev")
-					w.SetItem("y", kB, 2, bs("yb"))
+				if mc := w.M.Cur.Colls[yName]; mc == nil || len(mc.Items) <= 1 {
+					w.SetCollection(yName, "rev")
+					w.SetItem(yName, kB, 2, bs("yb"))
 				}
 			}})
 			if !w.Closed {
@@ -71,10 +71,16 @@ func c14Profiles(tier string) []Profile {
 				Letter{"Reopen", func(w *harness.World) { w.Reopen(true) }})
 			return ls
 		}}
-	return []Profile{
+	var conc []Profile
+	for _, sc := range append(c05Scenarios(), c05More()...) {
+		if sc.Name == "S8-flushes" || sc.Name == "S4-flush" {
+			conc = append(conc, sc.Profile(1))
+		}
+	}
+	return append(conc, []Profile{
 		hist.Profile(fmt.Sprintf("every history of length <= %d over the C02 store alphabet plus CopyTo(flushEvery 1,2); after every Flush and for every CopyTo destination an independent decoder of the documented v4 layout (shares no code with gkvlite) must accept every record, find children below their parents, recompute every persisted aggregate, reconstruct exactly the model's flushed state, and the bytes appended by the Flush must be tiled exactly by the item, node and root records reachable from the new root", d)),
 		sizes.Profile(fmt.Sprintf("every history of length <= %d over collection names {\"x\", \"\", \"a b\", q\"\\, u-umlaut, a name with control characters 0x01 0x7f TAB} (including empty collections), key lengths {1,2,255,256,65535} x value lengths {0,1,255,65536,70000}, Flush, Reopen; same decoder oracle", ds)),
-	}
+	}...)
 }
 
 func init() {
